@@ -11,6 +11,7 @@ package symx
 // interface and reflect.Value is an (opaque) struct.
 
 import (
+	"sync"
 	"fmt"
 	"go/token"
 	"go/types"
@@ -502,7 +503,32 @@ func newMethod(pkg *ssa.Package, recvType types.Type, name string) *ssa.Function
 	return fn
 }
 
+type reflectState struct {
+	pkg          *ssa.Package
+	rtypeMethods methodSet
+	errorMethods methodSet
+}
+
+var (
+	reflectMu     sync.Mutex
+	reflectStates = map[*ssa.Program]*reflectState{}
+)
+
+// initReflect sets up the fake reflect package once per program (it
+// mutates shared type information) and shares the result between all
+// interpreters of that program.
 func initReflect(i *interpreter) {
+	reflectMu.Lock()
+	defer reflectMu.Unlock()
+	if st, ok := reflectStates[i.prog]; ok {
+		i.reflectPackage, i.rtypeMethods, i.errorMethods = st.pkg, st.rtypeMethods, st.errorMethods
+		return
+	}
+	initReflectOnce(i)
+	reflectStates[i.prog] = &reflectState{i.reflectPackage, i.rtypeMethods, i.errorMethods}
+}
+
+func initReflectOnce(i *interpreter) {
 	i.reflectPackage = &ssa.Package{
 		Prog:    i.prog,
 		Pkg:     reflectTypesPackage,
